@@ -93,7 +93,8 @@ def with_dups(n, extra, tag):
 
 ENTRY = ['fnmatch.fnmatch', 'fnmatch.filter', 'fnmatch.translate', 'fnmatch.compile', 'glob.globmatch', 'glob.globfilter',
          'glob.translate', 'glob.compile', 'glob.glob', 'glob.iglob', 'PurePath.match', 'PurePath.globmatch', 'Path.glob',
-         'Path.rglob', 'WcMatch', 'WcMatch.exclude', 'fnmatch.filter(no names)', 'glob.globfilter(no names)']
+         'Path.rglob', 'WcMatch', 'WcMatch.exclude', 'fnmatch.filter(no names)', 'glob.globfilter(no names)',
+         'PurePath.full_match', 'Path.match', 'Path.globmatch', 'Path.full_match', 'PureWindowsPath.full_match']
 
 
 def invoke(entry, incl, excl, flagnames, limit, root):
@@ -151,6 +152,16 @@ def invoke(entry, incl, excl, flagnames, limit, root):
         return WP.PurePath('a').match(incl, flags=fl, **kw)
     if entry == 'PurePath.globmatch':
         return WP.PurePath('a').globmatch(incl, flags=fl, **kw)
+    if entry == 'PurePath.full_match':
+        return WP.PurePath('a').full_match(incl, flags=fl, **kw)
+    if entry == 'PureWindowsPath.full_match':
+        return WP.PureWindowsPath('a').full_match(incl, flags=fl, **kw)
+    if entry == 'Path.match':
+        return WP.Path(root, 'a').match(incl, flags=fl, **kw)
+    if entry == 'Path.globmatch':
+        return WP.Path(root, 'a').globmatch(incl, flags=fl, **kw)
+    if entry == 'Path.full_match':
+        return WP.Path(root, 'a').full_match(incl, flags=fl, **kw)
     if entry == 'Path.glob':
         return list(WP.Path(root).glob(incl, flags=fl, **kw))
     if entry == 'Path.rglob':
